@@ -3,6 +3,7 @@ package core
 import (
 	"fmt"
 	"go/constant"
+	"go/token"
 	"go/types"
 	"sort"
 	"strings"
@@ -672,69 +673,125 @@ type KeyComponent struct {
 // conversions, inlines single-return key helpers and splits fmt.Sprintf by its constant format.
 // A key that is not built this way is returned as a single component.
 func (p *Program) KeyComponents(v ssa.Value, at ssa.Instruction) []KeyComponent {
-	for depth := 0; depth < 8; depth++ {
-		switch x := v.(type) {
-		case *ssa.Convert:
-			v = x.X
-			continue
-		case *ssa.ChangeType:
-			v = x.X
-			continue
-		case *ssa.Call:
-			callee := x.Call.StaticCallee()
-			if callee != nil && callee.String() == "fmt.Sprintf" && len(x.Call.Args) >= 1 {
-				format, fc, fok := p.ConstPrefix(x.Call.Args[0])
-				if fok && fc {
-					var args []ssa.Value
-					if len(x.Call.Args) > 1 {
-						args = VarArgs(x.Call.Args[1])
-					}
-					var out []KeyComponent
-					ai := 0
-					for i := 0; i < len(format); i++ {
-						if format[i] != '%' {
-							continue
-						}
-						if i+1 < len(format) && format[i+1] == '%' {
-							i++
-							continue
-						}
-						j := i + 1
-						for j < len(format) && strings.ContainsRune("+-# 0123456789.", rune(format[j])) {
-							j++
-						}
-						if j < len(format) && ai < len(args) && args[ai] != nil {
-							a := args[ai]
-							if mi, ok := a.(*ssa.MakeInterface); ok {
-								a = mi.X
-							}
-							out = append(out, KeyComponent{Verb: "%" + string(format[j]), Val: a, At: x})
-						}
-						ai++
-						i = j
-					}
-					return out
-				}
-			}
-			if callee != nil && callee.Blocks != nil && IsCustomFn(callee) {
-				var ret *ssa.Return
-				n := 0
-				for _, b := range callee.Blocks {
-					if r, ok := b.Instrs[len(b.Instrs)-1].(*ssa.Return); ok {
-						ret = r
-						n++
-					}
-				}
-				if n == 1 && len(ret.Results) == 1 {
-					v = ret.Results[0]
-					at = ret
-					continue
-				}
+	out, _ := p.keyParts(v, at, 0)
+	if len(out) == 0 {
+		return []KeyComponent{{Verb: "", Val: v, At: at}} // a constant key
+	}
+	return out
+}
+
+// keyParts: the variable components of a key expression, left to right; literals contribute nothing. composed reports
+// whether the expression was recognised as a concatenation / formatting at all.
+func (p *Program) keyParts(v ssa.Value, at ssa.Instruction, depth int) ([]KeyComponent, bool) {
+	opaque := func() ([]KeyComponent, bool) { return []KeyComponent{{Verb: "", Val: v, At: at}}, false }
+	if depth > 12 {
+		return opaque()
+	}
+	switch x := v.(type) {
+	case *ssa.Convert:
+		return p.keyParts(x.X, at, depth+1)
+	case *ssa.ChangeType:
+		return p.keyParts(x.X, at, depth+1)
+	case *ssa.Const:
+		if x.Value == nil || x.Value.Kind() == constant.String {
+			return nil, true
+		}
+	case *ssa.MakeSlice:
+		if c, ok := x.Len.(*ssa.Const); ok && c.Value != nil && c.Value.ExactString() == "0" {
+			return nil, true
+		}
+	case *ssa.Slice:
+		if al, ok := x.X.(*ssa.Alloc); ok {
+			if _, isConst := constByteArray(al); isConst {
+				return nil, true
 			}
 		}
-		break
+	case *ssa.BinOp:
+		if x.Op == token.ADD {
+			if b, ok := x.Type().Underlying().(*types.Basic); ok && b.Info()&types.IsString != 0 {
+				l, lc := p.keyParts(x.X, at, depth+1)
+				r, rc := p.keyParts(x.Y, at, depth+1)
+				return append(asStringParts(l, lc), asStringParts(r, rc)...), true
+			}
+		}
+	case *ssa.Call:
+		if b, ok := x.Call.Value.(*ssa.Builtin); ok && b.Name() == "append" && len(x.Call.Args) == 2 {
+			l, lc := p.keyParts(x.Call.Args[0], x, depth+1)
+			r, rc := p.keyParts(x.Call.Args[1], x, depth+1)
+			return append(asStringParts(l, lc), asStringParts(r, rc)...), true
+		}
+		callee := x.Call.StaticCallee()
+		name := ""
+		if callee != nil {
+			name = callee.String()
+		}
+		switch {
+		case name == "fmt.Sprintf" && len(x.Call.Args) >= 1:
+			format, fc, fok := p.ConstPrefix(x.Call.Args[0])
+			if fok && fc {
+				var args []ssa.Value
+				if len(x.Call.Args) > 1 {
+					args = VarArgs(x.Call.Args[1])
+				}
+				var out []KeyComponent
+				ai := 0
+				for i := 0; i < len(format); i++ {
+					if format[i] != '%' {
+						continue
+					}
+					if i+1 < len(format) && format[i+1] == '%' {
+						i++
+						continue
+					}
+					j := i + 1
+					for j < len(format) && strings.ContainsRune("+-# 0123456789.", rune(format[j])) {
+						j++
+					}
+					if j < len(format) && ai < len(args) && args[ai] != nil {
+						a := args[ai]
+						if mi, ok := a.(*ssa.MakeInterface); ok {
+							a = mi.X
+						}
+						out = append(out, KeyComponent{Verb: "%" + string(format[j]), Val: a, At: x})
+					}
+					ai++
+					i = j
+				}
+				return out, true
+			}
+		case (name == "strconv.AppendInt" || name == "strconv.AppendUint") && len(x.Call.Args) == 3 && isConstInt(x.Call.Args[2], 10):
+			l, _ := p.keyParts(x.Call.Args[0], x, depth+1)
+			return append(l, KeyComponent{Verb: "%d", Val: x.Call.Args[1], At: x}), true
+		case (name == "strconv.FormatInt" || name == "strconv.FormatUint") && len(x.Call.Args) == 2 && isConstInt(x.Call.Args[1], 10):
+			return []KeyComponent{{Verb: "%d", Val: x.Call.Args[0], At: x}}, true
+		case name == "strconv.Itoa" && len(x.Call.Args) == 1:
+			return []KeyComponent{{Verb: "%d", Val: x.Call.Args[0], At: x}}, true
+		case name == "encoding/hex.EncodeToString" && len(x.Call.Args) == 1:
+			return []KeyComponent{{Verb: "%x", Val: x.Call.Args[0], At: x}}, true
+		case name == "encoding/hex.AppendEncode" && len(x.Call.Args) == 2:
+			l, _ := p.keyParts(x.Call.Args[0], x, depth+1)
+			return append(l, KeyComponent{Verb: "%x", Val: x.Call.Args[1], At: x}), true
+		}
+		if callee != nil && callee.Blocks != nil && IsCustomFn(callee) {
+			var ret *ssa.Return
+			n := 0
+			for _, b := range callee.Blocks {
+				if r, ok := b.Instrs[len(b.Instrs)-1].(*ssa.Return); ok {
+					ret = r
+					n++
+				}
+			}
+			if n == 1 && len(ret.Results) == 1 {
+				if parts, ok := p.joinEachParts(callee, ret.Results[0], x, depth); ok {
+					return parts, true
+				}
+				return p.keyParts(ret.Results[0], ret, depth+1)
+			}
+		}
+	case *ssa.Phi:
+		// straight-line appends joined by no branch never produce a phi; a phi here is a real alternative
 	}
-	return []KeyComponent{{Verb: "", Val: v, At: at}}
+	return opaque()
 }
 
 // PrefixTypes returns, per "module/prefix", the set of types marshalled into or decoded out of that prefix,
@@ -782,4 +839,85 @@ func (p *Program) PrefixTypes(funcs []*ssa.Function) map[string]map[string][]str
 		}
 	}
 	return out
+}
+
+// asStringParts: an operand of a concatenation that is not itself a formatting is written out as it is ("%s").
+func asStringParts(parts []KeyComponent, composed bool) []KeyComponent {
+	if !composed && len(parts) == 1 && parts[0].Verb == "" {
+		parts[0].Verb = "%s"
+	}
+	return parts
+}
+
+// joinEachParts: the callee builds its result by appending, for every element of its variadic parameter in order, that
+// element (and literals) to a buffer that starts empty — buildKey(a, b, c) = a "/" b "/" c "/". The components of the
+// key are then the components of the actual variadic arguments at this call.
+func (p *Program) joinEachParts(callee *ssa.Function, result ssa.Value, call *ssa.Call, depth int) ([]KeyComponent, bool) {
+	if !callee.Signature.Variadic() || len(callee.Params) == 0 {
+		return nil, false
+	}
+	vparam := callee.Params[len(callee.Params)-1]
+	for {
+		if cv, ok := result.(*ssa.Convert); ok {
+			result = cv.X
+			continue
+		}
+		break
+	}
+	ph, ok := result.(*ssa.Phi)
+	if !ok || !InCycle(ph.Block()) || len(ph.Edges) != 2 {
+		return nil, false
+	}
+	var init, update ssa.Value
+	for i, e := range ph.Edges {
+		if SameLoop(ph.Block().Preds[i], ph.Block()) {
+			update = e
+		} else {
+			init = e
+		}
+	}
+	if init == nil || update == nil {
+		return nil, false
+	}
+	if ip, composed := p.keyParts(init, call, depth+1); !composed || len(ip) != 0 {
+		return nil, false // the buffer does not start empty
+	}
+	up, composed := p.keyParts(update, call, depth+1)
+	if !composed {
+		return nil, false
+	}
+	// the update is: the buffer itself, one element of the variadic parameter, literals
+	nPhi, nElem := 0, 0
+	for _, c := range up {
+		switch {
+		case c.Val == ssa.Value(ph):
+			nPhi++
+		default:
+			ld, isLd := c.Val.(*ssa.UnOp)
+			if !isLd {
+				return nil, false
+			}
+			ia, isIA := ld.X.(*ssa.IndexAddr)
+			if !isIA || ia.X != ssa.Value(vparam) {
+				return nil, false
+			}
+			nElem++
+		}
+	}
+	if nPhi != 1 || nElem != 1 || len(call.Call.Args) == 0 {
+		return nil, false
+	}
+	actuals := VarArgs(call.Call.Args[len(call.Call.Args)-1])
+	if len(actuals) == 0 {
+		return nil, false
+	}
+	var out []KeyComponent
+	for _, a := range actuals {
+		if a == nil {
+			return nil, false
+		}
+		ap, ac := p.keyParts(a, call, depth+1)
+		out = append(out, asStringParts(ap, ac)...)
+	}
+	return out, true
 }
